@@ -10,7 +10,9 @@ import (
 	"strings"
 
 	gsm "github.com/go-sourcemap/sourcemap"
+	"github.com/xjslang/xjs/ast"
 	"github.com/xjslang/xjs/sourcemap"
+	"github.com/xjslang/xjs/token"
 
 	"verifsim/kernel"
 )
@@ -18,11 +20,11 @@ import (
 // ---- independent decoder, written from the Source Map v3 text ---------------
 
 type Seg struct {
-	GenLine, GenCol  int
-	SrcIdx           int
-	SrcLine, SrcCol  int
-	HasName          bool
-	Name             int
+	GenLine, GenCol int
+	SrcIdx          int
+	SrcLine, SrcCol int
+	HasName         bool
+	Name            int
 }
 
 const b64 = "ABCDEFGHIJKLMNOPQRSTUVWXYZabcdefghijklmnopqrstuvwxyz0123456789+/"
@@ -163,8 +165,8 @@ var strPieces = []string{"a", "ab", " ", "\n", "\r", "\r\n", "é", "日本", "x\
 type Engine struct{}
 
 func New(tier string) kernel.Engine { return &Engine{} }
-func (e *Engine) Name() string       { return "mapsim" }
-func (e *Engine) Close()             {}
+func (e *Engine) Name() string      { return "mapsim" }
+func (e *Engine) Close()            {}
 
 func srcPos(ch *kernel.Chooser, prev int) int {
 	switch ch.Weighted(6, 3, 2, 1, 1) {
@@ -191,6 +193,16 @@ func (e *Engine) Run(prop string, ch *kernel.Chooser, st *kernel.Stats) kernel.R
 		nOps += ch.Choose(160)
 	}
 	real := sourcemap.New()
+	// the client is either the harness calling the mapper directly, or the library's own client: a real
+	// ast.CodeWriter (compact mode) that owns the mapper and is driven through its writing API
+	var cw *ast.CodeWriter
+	if ch.Bool(1, 4) {
+		cw = &ast.CodeWriter{Mapper: real}
+		st.Inc("client.code_writer")
+	} else {
+		st.Inc("client.direct")
+	}
+	var written strings.Builder
 	m := newModel()
 	var ops []Op
 	var viol []kernel.Violation
@@ -280,7 +292,11 @@ func (e *Engine) Run(prop string, ch *kernel.Chooser, st *kernel.Stats) kernel.R
 			}
 			prevLine, prevCol = l, c
 			ops = append(ops, Op{Kind: "AddMapping", A: l, B: c})
-			real.AddMapping(l, c)
+			if cw != nil {
+				cw.AddMapping(token.Position{Line: l, Column: c})
+			} else {
+				real.AddMapping(l, c)
+			}
 			noteShape(m, st, false, 0)
 			m.segs = append(m.segs, Seg{GenLine: m.line, GenCol: m.col, SrcLine: l, SrcCol: c})
 		case 1: // AddNamedMapping
@@ -296,7 +312,11 @@ func (e *Engine) Run(prop string, ch *kernel.Chooser, st *kernel.Stats) kernel.R
 			}
 			prevLine, prevCol = l, c
 			ops = append(ops, Op{Kind: "AddNamedMapping", A: l, B: c, S: name})
-			real.AddNamedMapping(l, c, name)
+			if cw != nil {
+				cw.AddNamedMapping(l, c, name)
+			} else {
+				real.AddNamedMapping(l, c, name)
+			}
 			idx, ok := m.nameIdx[name]
 			if !ok {
 				idx = len(m.names)
@@ -312,8 +332,17 @@ func (e *Engine) Run(prop string, ch *kernel.Chooser, st *kernel.Stats) kernel.R
 			if ch.Bool(1, 12) {
 				n = ch.Choose(1 << 20)
 			}
+			if cw != nil {
+				n %= 200 // columns are advanced by writing that many bytes
+			}
 			ops = append(ops, Op{Kind: "AdvanceColumn", A: n})
-			real.AdvanceColumn(n)
+			if cw != nil {
+				x := strings.Repeat("x", n)
+				cw.WriteString(x)
+				written.WriteString(x)
+			} else {
+				real.AdvanceColumn(n)
+			}
 			m.col += n
 			lastEndedCR = false
 		case 3: // AdvanceString
@@ -327,7 +356,12 @@ func (e *Engine) Run(prop string, ch *kernel.Chooser, st *kernel.Stats) kernel.R
 				s = "a" + s
 			}
 			ops = append(ops, Op{Kind: "AdvanceString", S: s})
-			real.AdvanceString(s)
+			if cw != nil {
+				cw.WriteString(s)
+				written.WriteString(s)
+			} else {
+				real.AdvanceString(s)
+			}
 			m.advanceString(s)
 			lastEndedCR = strings.HasSuffix(s, "\r")
 			if strings.Contains(s, "\r\n") {
@@ -344,7 +378,12 @@ func (e *Engine) Run(prop string, ch *kernel.Chooser, st *kernel.Stats) kernel.R
 			}
 		case 4: // AdvanceLine
 			ops = append(ops, Op{Kind: "AdvanceLine"})
-			real.AdvanceLine()
+			if cw != nil {
+				cw.WriteRune('\n')
+				written.WriteByte('\n')
+			} else {
+				real.AdvanceLine()
+			}
 			m.line++
 			m.col = 0
 			lastEndedCR = false
@@ -360,6 +399,9 @@ func (e *Engine) Run(prop string, ch *kernel.Chooser, st *kernel.Stats) kernel.R
 	if len(viol) == 0 {
 		ops = append(ops, Op{Kind: "SourceMap"})
 		check(true)
+	}
+	if cw != nil && len(viol) == 0 && cw.String() != written.String() {
+		report("client", "code-writer-text", fmt.Sprintf("the code writer holds %q after writing %q", cw.String(), written.String()))
 	}
 	if len(viol) == 0 && ch.Bool(1, 4) {
 		// a second read must agree with the first (snapshots do not disturb the mapper)
@@ -526,10 +568,10 @@ func Sweep(ctx *kernel.BatchContext) []kernel.Violation {
 	}
 	checkBlock(vals)
 	ctx.ExtraInfo["vlq_sweep"] = map[string]any{
-		"exhaustive_range":   "[-2^20, 2^20] (each value as +delta and -delta through the public API)",
-		"sampled_to_2^31":    n,
+		"exhaustive_range":    "[-2^20, 2^20] (each value as +delta and -delta through the public API)",
+		"sampled_to_2^31":     n,
 		"deltas_roundtripped": count,
-		"note":               "plain enumeration riding in the same engine; exhaustive for this sub-space only",
+		"note":                "plain enumeration riding in the same engine; exhaustive for this sub-space only",
 	}
 	return out
 }
@@ -546,7 +588,7 @@ func init() {
 			}
 			return kernel.TierSpec{Runs: 400_000, WallSeconds: 40, ShrinkSecs: 20, RunBudgetMs: 10000}
 		},
-		Rule: "each run = one seeded operation history (<=200 ops over AddMapping/AddNamedMapping/AdvanceColumn/AdvanceString/AdvanceLine/SourceMap-snapshot) on one real SourceMapper, checked at every snapshot against a reference model through an independent v3 decoder; distinct = distinct hash of the operation sequence with arguments; non-trivial = at least 2 recorded mappings",
+		Rule:      "each run = one seeded operation history (<=200 ops over AddMapping/AddNamedMapping/AdvanceColumn/AdvanceString/AdvanceLine/SourceMap-snapshot) on one real SourceMapper, checked at every snapshot against a reference model through an independent v3 decoder; distinct = distinct hash of the operation sequence with arguments; non-trivial = at least 2 recorded mappings",
 		Real:      []string{"sourcemap.SourceMapper (all methods)", "sourcemap VLQ encoder (through SourceMap())"},
 		Simulated: []string{"the client (code writer role): seeded operation histories"},
 		Oracles:   []string{"harness reference model (absolute positions, first-seen name table)", "harness Source Map v3 decoder", "github.com/go-sourcemap/sourcemap as a cross-check of the harness decoder only"},
